@@ -4,6 +4,7 @@ package cl
 
 import (
 	"math"
+	"math/big"
 	"math/cmplx"
 
 	"github.com/ohler55/slip"
@@ -47,6 +48,28 @@ type Expt struct {
 // Call the function with the arguments provided.
 func (f *Expt) Call(s *slip.Scope, args slip.List, depth int) (result slip.Object) {
 	slip.CheckArgCount(s, depth, f, args, 2, 2)
+	if pow, ok := args[1].(slip.Fixnum); ok {
+		// A rational raised to a non-negative integer is exact.
+		switch base := args[0].(type) {
+		case slip.Fixnum:
+			if 0 <= pow {
+				return intReduce(f.bigExpt(s, big.NewInt(int64(base)), pow, depth))
+			}
+			if base == 0 {
+				slip.DivisionByZeroPanic(s, depth, slip.Symbol("expt"), args, "divide by zero")
+			}
+		case *slip.Bignum:
+			if 0 <= pow {
+				return intReduce(f.bigExpt(s, (*big.Int)(base), pow, depth))
+			}
+		case *slip.Ratio:
+			if 0 <= pow {
+				return reduceNumber(slip.NewBigRatio(
+					f.bigExpt(s, (*big.Rat)(base).Num(), pow, depth),
+					f.bigExpt(s, (*big.Rat)(base).Denom(), pow, depth)))
+			}
+		}
+	}
 	if base, ok := args[0].(slip.Fixnum); ok {
 		if pow, ok2 := args[1].(slip.Fixnum); ok2 {
 			x := math.Pow(float64(base), float64(pow))
@@ -79,4 +102,15 @@ func (f *Expt) Call(s *slip.Scope, args slip.List, depth int) (result slip.Objec
 		slip.TypePanic(s, depth, "base", base, "number")
 	}
 	return
+}
+
+// bigExpt returns base raised to a non-negative pow. A result that would have
+// more than slip.ArrayMaxDimension bits is refused.
+func (f *Expt) bigExpt(s *slip.Scope, base *big.Int, pow slip.Fixnum, depth int) *big.Int {
+	if bits := base.BitLen() - 1; 0 < bits && slip.ArrayMaxDimension/bits < int(pow) {
+		slip.ErrorPanic(s, depth, "%s raised to %d is too large", (*slip.Bignum)(base), pow)
+	}
+	var z big.Int
+
+	return z.Exp(base, big.NewInt(int64(pow)), nil)
 }
